@@ -120,6 +120,9 @@ def solve_oracle(spec, ops, step_ticks, cb_ticks, obs, twin, min0):
                 return {**where, "fails": "a direct step() call changed the counter or the statistics", "obs": ob}
         elif o["op"] == "nanstop":
             nanstop = bool(o["v"])
+        elif o["op"] == "tick":
+            if ob["elapsed"] != solve_time:
+                return {**where, "fails": f"time passing outside solve() changed the reported time: {ob['elapsed']} instead of {solve_time}"}
         elif o["op"] == "solve":
             m = max(int(o["maxiter"]), 0)
             trip = None
